@@ -60,6 +60,26 @@ def body_factory(known):
                          {'op': 'comment', 'pr': pr, 'user': user,
                           'text': text}, ev, ev, ev]
                 hist.flags.add('c10_command_twice')
+            elif prs and data.draw(st.integers(0, 7), label='stale') == 0:
+                # instance-state probe: a job that ends early (it may not even
+                # clone), then the outside world moves, then an evaluation is
+                # compared between the long-lived and a fresh instance
+                pr = prs[data.draw(st.integers(0, len(prs) - 1),
+                                   label='spr')]
+                dests = sorted(n for n in hist.world.heads()
+                               if n.startswith('development/'))
+                early = [{'op': 'commit_event', 'sel': {'ref': dests[0]}}] \
+                    if dests else []
+                kind = ('add', 'amend', 'rebase')[data.draw(
+                    st.integers(0, 2), label='skind')]
+                src = hist.world.prs[pr]['src']
+                ev = [{'op': 'commit_event', 'sel': {'ref': src}},
+                      {'op': 'pr_event', 'pr': pr}][data.draw(
+                          st.integers(0, 1), label='sev')]
+                steps = early + [{'op': 'push_src', 'pr': pr, 'kind': kind},
+                                 {'op': 'twin', 'tag': 'C10', 'a': ev,
+                                  'b': ev, 'fresh_b': True}, ev]
+                hist.flags.add('c10_instance_state_probe')
             for step in steps:
                 probe = step['op'] in ('pr_event', 'commit_event') and \
                     probes < 5 and data.draw(st.integers(0, 2),
